@@ -425,7 +425,7 @@ impl<T: El> SetMon<T> {
 // generation
 // ------------------------------------------------------------------------------------------
 
-fn set_op<T: El>(rng: &mut Rng, mon: &SetMon<T>, keyspace: u64, max_len: usize) -> Op {
+fn set_op<T: El>(rng: &mut Rng, mon: &SetMon<T>, keyspace: u64, max_len: usize, noforget: bool) -> Op {
     use Code::*;
     let table: &[(Code, u32)] = &[
         (SInsert, 30), (SReplace, 8), (SRemove, 10), (STake, 6), (SGet, 5), (SContains, 5), (SGetOrInsert, 6), (SGetOrInsertOwned, 5), (SGetOrInsertWith, 5),
@@ -478,8 +478,8 @@ fn set_op<T: El>(rng: &mut Rng, mon: &SetMon<T>, keyspace: u64, max_len: usize) 
     let prefix = |rng: &mut Rng| if rng.chance(1, 2) { MAXN } else { rng.below(mon.model.len() as u64 + 1) };
     match code {
         SRetain => Op::new(code).with_list(pred(rng)),
-        SDrain => Op::n(code, prefix(rng)).with_v(rng.chance(1, 6) as u64),
-        SDrainFilter => Op::n(code, prefix(rng)).with_list(pred(rng)).with_k(rng.chance(1, 6) as u64),
+        SDrain => Op::n(code, prefix(rng)).with_v((!noforget && rng.chance(1, 6)) as u64),
+        SDrainFilter => Op::n(code, prefix(rng)).with_list(pred(rng)).with_k((!noforget && rng.chance(1, 6)) as u64),
         SIntoIter => Op::n(code, prefix(rng)),
         SExtend => {
             let n = rng.usize(10);
@@ -524,12 +524,12 @@ pub fn replay_set(r: &Replay, path: &str) -> i32 {
     }
 }
 
-fn set_history<T: El>(rng: &mut Rng, cfg: &Cfg, keyspace: u64, n: usize, max_len: usize) -> (Vec<Op>, Result<(u64, u64, u64), Viol>) {
+fn set_history<T: El>(rng: &mut Rng, cfg: &Cfg, keyspace: u64, n: usize, max_len: usize, noforget: bool) -> (Vec<Op>, Result<(u64, u64, u64), Viol>) {
     ledger_reset();
     let mut mon: SetMon<T> = SetMon::new(cfg.cap, cfg.bh);
     let mut ops = Vec::new();
     for _ in 0..n {
-        let op = set_op(rng, &mon, keyspace, max_len);
+        let op = set_op(rng, &mon, keyspace, max_len, noforget);
         let r = mon.step(&op);
         ops.push(op);
         if let Err(v) = r {
@@ -749,6 +749,8 @@ pub fn sets(a: &Args, rep: &mut Report) {
     let sh = Shard::from_args(a);
     let mut rng = sh.rng(13);
     let small = cfg!(miri);
+    // forgetting an iterator leaks by design: keep it out of runs watched by a leak detector
+    let noforget = a.has("noforget") || cfg!(miri);
     for h in 0..sh.n {
         let mut hr = rng.fork();
         let elem = *hr.pick(&[ElemKind::U64, ElemKind::TrInline, ElemKind::TrHeap]);
@@ -759,9 +761,9 @@ pub fn sets(a: &Args, rep: &mut Report) {
         let n = if small { 20 + hr.usize(40) } else { 40 + hr.usize(260) };
         let max_len = if small { 60 } else if slow { 140 } else { 500 };
         let (ops, res) = match elem {
-            ElemKind::U64 => set_history::<u64>(&mut hr, &cfg, keyspace, n, max_len),
-            ElemKind::TrInline => set_history::<Tr<false>>(&mut hr, &cfg, keyspace, n, max_len),
-            ElemKind::TrHeap => set_history::<Tr<true>>(&mut hr, &cfg, keyspace, n, max_len),
+            ElemKind::U64 => set_history::<u64>(&mut hr, &cfg, keyspace, n, max_len, noforget),
+            ElemKind::TrInline => set_history::<Tr<false>>(&mut hr, &cfg, keyspace, n, max_len, noforget),
+            ElemKind::TrHeap => set_history::<Tr<true>>(&mut hr, &cfg, keyspace, n, max_len, noforget),
         };
         rep.evaluations += 1;
         let tag = format!("sets-{}-s{}-i{}-h{}", flavour(), sh.seed, sh.index, h);
